@@ -18,9 +18,27 @@ pub enum Frag {
     Idiom(Kind, Mode, usize),
     /// hand-written multi-evidence fragments
     Evidence(usize),
+    /// (environment opcode, variant): raw store / narrow mask / signed compare
+    Leaf(u8, usize),
 }
 
 const EVIDENCE: usize = 6;
+
+/// Environment leaves: code fragments that use the same leaf must still not influence each other's slots.
+const LEAVES: [u8; 17] = [
+    0x30, 0x32, 0x33, 0x34, 0x3a, 0x41, 0x42, 0x43, 0x44, 0x45, 0x46, 0x47, 0x48, 0x5a, 0x36, 0x3d, 0x59,
+];
+
+fn leaf_fragment(leaf: u8, variant: usize, s: U) -> Vec<Vec<Tok>> {
+    match variant {
+        // the raw value is stored
+        0 => vec![vec![o(leaf), pu(s), o(op::SSTORE), o(op::STOP)]],
+        // one byte of it is stored
+        1 => vec![vec![p(0xff), o(leaf), o(op::AND), pu(s), o(op::SSTORE), o(op::STOP)]],
+        // it is compared as a signed number and the flag is stored
+        _ => vec![vec![p(0), o(leaf), o(op::SLT), pu(s), o(op::SSTORE), o(op::STOP)]],
+    }
+}
 
 fn evidence(i: usize, s: U) -> Vec<Vec<Tok>> {
     let ret = || vec![p(0), o(op::MSTORE), p(0x20), p(0), o(op::RETURN)];
@@ -92,6 +110,7 @@ impl Frag {
                 &SPELLINGS[*sp],
             ),
             Frag::Evidence(i) => evidence(*i, slot),
+            Frag::Leaf(l, v) => leaf_fragment(*l, *v, slot),
         }
     }
 }
@@ -113,6 +132,11 @@ pub fn family(tier: Tier) -> Vec<Frag> {
     }
     for i in 0..EVIDENCE {
         v.push(Frag::Evidence(i));
+    }
+    for l in LEAVES {
+        for variant in 0..3 {
+            v.push(Frag::Leaf(l, variant));
+        }
     }
     v
 }
@@ -293,7 +317,7 @@ impl Check for C11 {
         let n = family(tier).len();
         let rule = format!(
             "fragment family of {n} single-variable code fragments with an abstract slot (7 representative idiom kinds x 3 access modes \
-             x {} spellings{}, 6 hand-written multi-evidence fragments: address use + zero test, caller stored + signed compare, counter, \
+             x {} spellings{}, 3 uses (raw store, one-byte mask, signed compare) of each of 17 environment opcodes, 6 hand-written multi-evidence fragments: address use + zero test, caller stored + signed compare, counter, \
              one-byte flag, length / call target, timestamp + selector-sized field). ALL ordered pairs (A, B) x 3 dispatcher shapes \
              (selector compare, reversed layout, two chained conditional jumps) x 2 slot assignments: layout(D(A,B)) must equal \
              layout(D(A)) u layout(D(B)) as entry sets. Renumbering: two-fragment programs x all 30 injective maps of their slots \
